@@ -37,7 +37,8 @@ ASSUMPTIONS = ["kinds the statement does not classify (number for a string or pa
 VALIDATION = ("CommandDoesNotExist", "DuplicateResult", "MissingParameters", "NoSuchParameter", "ParameterNotValid", "PathDoesNotExist",
               "InvalidRelativePath", "ResultDoesNotExist", "ResultTypeNotValid", "ResultNotFuzzy", "ResultIsFuzzy")
 RAW_KINDS = ["int", "float", "numstr", "word", "boolword", "zero", "list", "nested", "tuple", "emptylist", "ref:nf", "ref:fz", "ref:bool", "ref:writer",
-             "unknown", "dtype-name", "existing-path", "missing", "extra", "inf-word", "nan-word", "huge-exponent", "list-of-inf"]
+             "unknown", "dtype-name", "existing-path", "missing", "extra", "inf-word", "nan-word", "huge-exponent", "list-of-inf",
+             "fraction", "slash-zero", "percent", "list-of-slash-zero"]  # text that looks like arithmetic: not a number
 _LOG = []
 
 
@@ -76,7 +77,8 @@ def _raw(rk):
             "tuple": ("tuple", [("bare", "k", ("q", "v"))]), "emptylist": ("list", []), "ref:nf": ("bare", "A"), "ref:fz": ("bare", "AF"),
             "ref:bool": ("bare", "PV"), "ref:writer": ("bare", "W"), "unknown": ("bare", "NoSuchResult"), "dtype-name": ("bare", "Integer"),
             "existing-path": ("q", "input.csv"), "inf-word": ("bare", "inf"), "nan-word": ("q", "nan"), "huge-exponent": ("bare", "1e999"),
-            "list-of-inf": ("list", [("int", "1"), ("bare", "-Infinity")])}[rk]
+            "list-of-inf": ("list", [("int", "1"), ("bare", "-Infinity")]),
+            "fraction": ("q", "1/2"), "slash-zero": ("q", "1/0"), "percent": ("q", "50%"), "list-of-slash-zero": ("list", [("int", "1"), ("q", "0/0")])}[rk]
 
 
 def expect(kind, rk, required):
@@ -93,6 +95,12 @@ def expect(kind, rk, required):
     if rk == "list-of-inf":
         if isinstance(kind, tuple) and kind[0] == "L" and kind[1] == "Num":
             return ("unspec",)
+        rk = "list"
+    if rk in ("fraction", "slash-zero", "percent"):
+        rk = "word"
+    if rk == "list-of-slash-zero":
+        if isinstance(kind, tuple) and kind[0] == "L" and kind[1] == "Num":
+            return ("reject", PNV)
         rk = "list"
     if kind == "Num":
         if rk in ("int", "float", "numstr", "zero"):
